@@ -864,7 +864,12 @@ class Interpreter(BaseInterpreter[TContext, TEvent]):
                     self._scheduled_sends.pop(key, None)
 
         task = asyncio.create_task(_delayed())
-        self.task_manager.add(self.id, task)
+        # 🗝️ Owned by the interpreter, not by a state: the owner key must not
+        #    be a state id. A root interpreter's id IS its root state's id, so
+        #    registering under `self.id` let a re-entering root-level
+        #    self-transition (which exits the root) cancel every pending
+        #    delayed raise / sendTo. `stop()` still cancels them all.
+        self.task_manager.add(f"<delayed sends of {self.id}>", task)
 
         def _cancel() -> None:
             """Cancels this specific delayed send."""
